@@ -140,7 +140,8 @@ def main(argv=None):
             unknown.append((sig, rec))
     for pat, (f, sigs) in sorted(known_hit.items()):
         print('KNOWN-FINDING: property=%s %s' % (prop, f['what']))
-    rdir = os.path.join(HERE, 'replays', prop)
+    OUT = os.environ.get('VERIF_OUT', HERE)
+    rdir = os.path.join(OUT, 'replays', prop)
     for sig, rec in unknown:
         os.makedirs(rdir, exist_ok=True)
         path = os.path.join(rdir, slug(sig) + '.json')
@@ -177,8 +178,8 @@ def main(argv=None):
     ev = {'property_id': prop, 'tier': tier, 'seed': seed, 'level': 'model_checking', 'coverage': cov,
           'assumptions': ctx.assumptions, 'wall_s': round(wall, 2), 'violations': len(unknown),
           'notes': ctx.notes}
-    os.makedirs(os.path.join(HERE, 'evidence'), exist_ok=True)
-    with open(os.path.join(HERE, 'evidence', prop + '.json'), 'w') as f:
+    os.makedirs(os.path.join(OUT, 'evidence'), exist_ok=True)
+    with open(os.path.join(OUT, 'evidence', prop + '.json'), 'w') as f:
         json.dump(ev, f, indent=1, default=repr)
     sys.stderr.write('[%s] tier=%s seed=%d states=%d transitions=%d evaluations=%d unknown=%d known=%d %.1fs\n' % (
         prop, tier, seed, ctx.states, ctx.transitions, ctx.evaluations, len(unknown), len(known_hit), wall))
